@@ -86,7 +86,7 @@ def apply(F):
     F.insert_in([], S[0], '    closed spec fn ser(&self) -> Bytes { self.0.gv() }')
     # N7: write_exact calls enforce_outbuf_len::<Self> inside `impl Serializable for Self` (trait-cycle check)
     F.hoist(S, r'fn write_exact\b', 'write_exact_tag_body', 'AeadTag<A>', trait='Serializable', generics='A: Aead')
-    F.contract(S, r'fn write_exact\b', attrs=['#[verifier::external_body]'], discharged_by='N7 delegation to the verified write_exact_tag_body (cross-checked by kani:write_exact_tag)')
+    F.contract(S, r'fn write_exact\b', attrs=['#[verifier::external_body]'], discharged_by='N7 delegation to the verified write_exact_tag_body (cross-checked by kani:write_exact_tag_copies)')
     F.contract([], r'fn write_exact_tag_body<A: Aead>', clauses='''
     requires old(buf)@.len() == nt_of::<A::AeadImpl>(),
     ensures /*@C12*/ final(buf)@ == this.ser(),
